@@ -436,6 +436,7 @@ def ob_phases(ctx, num):
                    late is None and before, f, c,
                    detail=f"`{norm.U(c)}` dominates the collection loop: {before}; reachable after it: {late is not None}")
     # every call that may kill is on every path (the killer cannot be bypassed)
+    ctx.count_min("calls in ResourcePool.run_one_tick that reach Container.kill (the OOM killer runs in the tick)", len(may_kill_calls(ctx.P, f)), 1)
     for c in may_kill_calls(ctx.P, f):
         byp = g.path_avoiding(g.entry.id, {g.exit.id}, {g.node_of(c).id})
         okb = byp is None or bypass_harmless(g, g.node_of(c).id, "active_containers")
